@@ -122,7 +122,8 @@ Run(o, t) == CASE o.op = "forward"  -> Forward(o, t)
 ObsOf(s, t) ==
   [bal |-> s.bal, al |-> EffAll(s.al, t), tg |-> s.tg,
    list |-> [cnt |-> s.cnt, at |-> [i \in 1..4 |-> s.tokAt[i - 1]], idx |-> s.idx,
-             allowed |-> [k \in AllToks |-> s.cnt = 0 \/ s.idx[k] # NoIdx], enabled |-> s.cnt > 0]]
+             allowed |-> [k \in AllToks |-> s.cnt = 0 \/ s.idx[k] # NoIdx], enabled |-> s.cnt > 0,
+             getter_ok |-> TRUE]]
 
 (* operations ------------------------------------------------------------------*)
 Op(op, dt, tok, fee, max, de, user, rel, rauth, diff, tfn, tfail, oper, oauth) ==
